@@ -474,6 +474,14 @@ def negative(col, seed, n):
         st.tuples(st.just("server"), st.sampled_from(BAD_OFFERS), st.just("accept"), st.booleans()))
 
     def body(t):
+        negative_one(col, t)
+    run_hypothesis(col, "negative", strat, body, n, seed)
+
+
+def negative_one(col, t):
+    from harness import drv, wsutil
+    from autobahn.websocket.compress import PerMessageDeflateOffer, PerMessageDeflateOfferAccept, PerMessageDeflateResponseAccept, PerMessageDeflateResponse
+    if True:
         role, (name, ext), policy, split = t
         case = {"check": "negative", "role": role, "name": name, "ext": ext, "policy": policy, "split": split}
         d = drv.get_driver()
@@ -524,7 +532,6 @@ def negative(col, seed, n):
         finally:
             d.close()
         col.case(True, dig=case, cls=["negative/" + role + "/" + name], sample=case)
-    run_hypothesis(col, "negative", strat, body, n, seed)
 
 
 def brotli_context_takeover(col):
@@ -564,6 +571,9 @@ def replay(col, case):
             return
     elif kind == "framebits":
         framebits(col)
+        return
+    elif kind == "negative":
+        negative_one(col, (c["role"], (c["name"], c["ext"]), c["policy"], c["split"]))
         return
     elif "pmce" in c:
         c["pmce"] = {k: (tuple(v) if isinstance(v, list) else v) for k, v in c["pmce"].items()}
